@@ -87,6 +87,10 @@ def op_case(ctx, LP, rng):
     pd = int(rng.integers(-9, 10))
     a, b = mk_la(LP, A), mk_la(LP, B)
     p = LP.LPoly(list(pc), pd)
+
+    def snap():
+        return tuple((np.asarray(x.coefs).tobytes(), int(x.dmin), bool(x.iszero)) for x in (a.IPoly, a.XPoly, b.IPoly, b.XPoly, p))
+    before = snap()
     tol = EPS * la_l1(A) * la_l1(B)
     extra = {}
     if op == "mul":
@@ -127,6 +131,10 @@ def op_case(ctx, LP, rng):
         tol = EPS * la_l1(A) ** 2
     else:  # attrs
         py = py_call(lambda: (int(a.degree), int(a.parity))); mo = d.ask("la.attrs %s" % enc_la(A))
+    if snap() != before:
+        ctx.violation("%s:operand-mutated" % op, "LAlg.%s modifies one of its operands (later uses of that element are wrong)" % op,
+                      {"op": op, "A": A, "B": B, "P": [pc, pd], "extra": extra})
+        return
     zero_comp = (not A[0]) or (not A[2]) or (op in ("mul", "add", "sub") and ((not B[0]) or (not B[2])))
     ctx.count("op:" + op)
     if zero_comp:
